@@ -172,4 +172,38 @@ theorem removed_dir {c : Ctx D} (oth crc m dw) {n : Nat} {d : Dir D}
           exact Or.inr h
 
 
+
+/-! ### the verification steps read only -/
+
+theorem reapCrash_beforePlan_false (A : DbAlg D) {s : FS D} (h : s.planTmp = false) (nn : Nat) (v : Bool) :
+    reapCrash A s nn v (.beforePlan false) = s := by
+  have hs : ({ s with planTmp := false } : FS D) = s := by cases s; simp only at h; subst h; rfl
+  unfold reapCrash
+  cases scan s with
+  | error e => rfl
+  | ok snaps =>
+    simp only
+    cases mkReapPlan snaps nn v with
+    | error e => rfl
+    | ok o =>
+      cases o with
+      | none => rfl
+      | some p => exact hs
+
+/-- a reap with its verification steps, interrupted anywhere, leaves what a reap without them
+leaves at some interruption point (a failed verification = "stopped before the plan") -/
+theorem reapCrashChecked_eq (A : DbAlg D) {s : FS D} (h : s.planTmp = false) (nn : Nat) (v vok iok : Bool) (cut : ReapCut) :
+    ∃ cut', reapCrashChecked A s nn v vok iok cut = reapCrash A s nn v cut' := by
+  unfold reapCrashChecked
+  cases reapGate s vok iok with
+  | error e => exact ⟨.beforePlan false, (reapCrash_beforePlan_false A h nn v).symm⟩
+  | ok u => exact ⟨cut, rfl⟩
+
+theorem reapChecked_ok (A : DbAlg D) {s t : FS D} {nn : Nat} {v vok iok : Bool}
+    (h : reapChecked A s nn v vok iok = .ok t) : reap A s nn v = .ok t := by
+  unfold reapChecked at h
+  cases hg : reapGate s vok iok with
+  | error e => rw [hg] at h; cases h
+  | ok u => rw [hg] at h; exact h
+
 end RqModel.SnapFS
